@@ -46,6 +46,7 @@ def run(tier, seed):
     if not ok_tr:
         P['ok'] = False
         P['log'] = 'translator failed closed: ' + tr_msg
+        P['discharged'] = 0     # the regenerated model could not be produced: nothing is proved about the current source
     tie = T.Tie(R)
     if not tie.ready:
         R.violation('tie-build-failed', 'could not build model or Rust harness',
